@@ -7,6 +7,7 @@ import (
 	"github.com/GuanceCloud/platypus/internal/verifsim/c13"
 	"github.com/GuanceCloud/platypus/internal/verifsim/c14"
 	"github.com/GuanceCloud/platypus/internal/verifsim/c15"
+	"github.com/GuanceCloud/platypus/internal/verifsim/c16"
 	"github.com/GuanceCloud/platypus/internal/verifsim/core"
 )
 
@@ -16,4 +17,5 @@ func init() {
 	core.Register(c13.Prop{})
 	core.Register(c14.Prop{})
 	core.Register(c15.Prop{})
+	core.Register(c16.Prop{})
 }
